@@ -139,13 +139,13 @@ def ob_point_erase(k, shrink, timeout):
 
 
 def ob_tg_erase(shrink, timeout):
-    names = ["a", "b", "hi", "s0", "e0", "t0"]
+    names = ["a", "b", "hi", "s0", "e0", "t0", "H"]
 
-    def pre(a, b, hi, s0, e0, t0):
-        return ivs_wf_pre(0.0, hi, s0, e0) & within(0.0, hi, t0, a, b) & (hi <= 1024.0) & sep(a, b, hi, 0.0, s0, e0, t0)
+    def pre(a, b, hi, s0, e0, t0, H):
+        return ivs_wf_pre(0.0, hi, s0, e0) & within(0.0, hi, t0, a, b) & (hi <= H) & (H <= 1024.0) & sep(a, b, hi, 0.0, s0, e0, t0, H)
 
-    def body(a, b, hi, s0, e0, t0):
-        tg = Textgrid(0.0, hi)
+    def body(a, b, hi, s0, e0, t0, H):
+        tg = Textgrid(0.0, H)  # the textgrid may be longer than its tiers
         tg.addTier(IntervalTier("i", [Interval(s0, e0, "x")], 0.0, hi))
         tg.addTier(PointTier("p", [Point(t0, "q")], 0.0, hi))
         tg.addTier(IntervalTier("empty", [], 0.0, hi))
@@ -166,10 +166,12 @@ def ob_tg_erase(shrink, timeout):
         ri, rp = r.getTier("i"), r.getTier("p")
         if tuples(ri.entries) != ei or tuples(rp.entries) != ep:
             return "tier entries differ from per-tier eraseRegion"
-        for t in (ri, rp, r, r.getTier("empty"), r.getTier("emptyp")):
+        for t in (ri, rp, r.getTier("empty"), r.getTier("emptyp")):
             if (t.minTimestamp, t.maxTimestamp) != (lo, hi2):
                 return "span"
-        if not r.validate("silence"):
+        if (r.minTimestamp, r.maxTimestamp) != (0.0, (H - (b - a)) if shrink else H):
+            return "textgrid span: end decreases by exactly b-a when shrinking, unchanged otherwise"
+        if H == hi and not r.validate("silence"):
             return "validate false"
         return True
 
